@@ -7,7 +7,9 @@
 EXTENDS Naturals, Sequences, FiniteSets, TLC
 
 SeqToSet(s) == {s[i] : i \in 1..Len(s)}
-Own(chain, i) == [k \in SeqToSet(chain[i].own) |-> <<k, i>>]
+\* an own key listed in chain[i].nul holds None, written <<k, 0>>
+Val(chain, i, k) == <<k, IF k \in SeqToSet(chain[i].nul) THEN 0 ELSE i>>
+Own(chain, i) == [k \in SeqToSet(chain[i].own) |-> Val(chain, i, k)]
 Overlay(parent, own) == [k \in DOMAIN parent \cup DOMAIN own |-> IF k \in DOMAIN own THEN own[k] ELSE parent[k]]
 
 RECURSIVE Stored(_, _)
@@ -23,17 +25,17 @@ VARIABLE chain
 Subseqs == {<<>>} \cup {<<k>> : k \in KeyUniverse} \cup
            {<<a, b>> \in KeyUniverse \X KeyUniverse : a < b} \cup
            {<<a, b, c>> \in KeyUniverse \X KeyUniverse \X KeyUniverse : a < b /\ b < c}
-Levels == [own : Subseqs, kind : {"mem", "disk"}]
+Levels == {l \in [own : Subseqs, kind : {"mem", "disk"}, nul : Subseqs] : SeqToSet(l.nul) \subseteq SeqToSet(l.own)}
 Init == chain \in UNION {[1..n -> Levels] : n \in 1..MaxLen}
 Next == UNCHANGED chain
 
 KeysAreUnion == \A i \in 2..Len(chain) :
     DOMAIN Stored(chain, i) = DOMAIN Stored(chain, i - 1) \cup SeqToSet(chain[i].own)
-OwnWins == \A i \in 1..Len(chain) : \A k \in SeqToSet(chain[i].own) : Stored(chain, i)[k] = <<k, i>>
+OwnWins == \A i \in 1..Len(chain) : \A k \in SeqToSet(chain[i].own) : Stored(chain, i)[k] = Val(chain, i, k)
 ParentOnlyRemain == \A i \in 2..Len(chain) : \A k \in DOMAIN Stored(chain, i - 1) \ SeqToSet(chain[i].own) :
     Stored(chain, i)[k] = Stored(chain, i - 1)[k]
 ValueComesFromNearestLevel == \A i \in 1..Len(chain) : \A k \in DOMAIN Stored(chain, i) :
-    LET lv == Stored(chain, i)[k][2] IN
-    /\ k \in SeqToSet(chain[lv].own) /\ lv <= i
-    /\ \A j \in (lv + 1)..i : k \notin SeqToSet(chain[j].own)
+    \E lv \in 1..i :
+      /\ k \in SeqToSet(chain[lv].own) /\ Stored(chain, i)[k] = Val(chain, lv, k)
+      /\ \A j \in (lv + 1)..i : k \notin SeqToSet(chain[j].own)
 =============================================================================
